@@ -121,8 +121,10 @@ class EquationParser(object):
                 self.InitialConditions[varname] = eqn
                 continue
             if mode == 'endogenous':
-                eqn = eqn.replace('(t-1)', '(k-1)')
-                eqn = eqn.replace(' (k -1 )', '(k-1)')
+                # The lag may be written (k-1) or (t-1), also in the spaced form the tokenizer produces
+                # (the Model emits 'X (k -1 )' / 'X (t -1 )'), and with a blank in front of the bracket.
+                for lag_form in ('(t-1)', ' (k -1 )', ' (t -1 )', '(k -1 )', '(t -1 )', ' (k-1)'):
+                    eqn = eqn.replace(lag_form, '(k-1)')
                 pos = eqn.find('(k-1)')
                 if pos == -1:
                     self.Endogenous.append((varname, eqn))
@@ -134,7 +136,7 @@ class EquationParser(object):
                         msg += 'Lag inside a larger expression (use a separate variable for the lag) - ignored: "%s"\n' % (equation,)
                         del self.AllEquations[varname]
                         continue
-                    self.Lagged.append((varname, eqn[0:pos]))
+                    self.Lagged.append((varname, source))
             else:
                 self.Exogenous.append((varname, eqn))
         if not found_t:
